@@ -287,6 +287,52 @@ def injected_provider_check(res):
     res.coverage["injected_provider_check"] = "2 formats x 2 start orders x 3 yield patterns: every evaluation as when running alone"
 
 
+def shipped_concurrent_check(res, rng):
+    """the SHIPPED ContentEvaluationResult based evaluators / hints provider / package resolver (they take everything from the context-local evaluatable
+    data): several evaluations of one expression running concurrently, each in its own task with its own data; every complete result as when running alone"""
+    import ahb
+    from ahbicht.expressions.ahb_expression_evaluation import evaluate_ahb_expression_tree
+    from ahbicht.expressions.expression_resolver import parse_expression_including_unresolved_subexpressions
+    ahb.use_cer_evaluators()
+    datas = [dict(rc={1: "F", 2: "F", 3: "F", 4: "U"}, fc={901: True}, hints={501: "first 501", 502: "first 502"}, packages={"1P": "[3]", "3P": "[4]"}),
+             dict(rc={1: "U", 2: "F", 3: "F", 4: "F"}, fc={901: False}, hints={501: "second 501", 502: "second 502"}, packages={"1P": "[4]", "3P": "[3]"}),
+             dict(rc={1: "F", 2: "U", 3: "U", 4: "F"}, fc={901: True}, hints={501: "third 501", 502: "third 502"}, packages={"1P": "[4]", "3P": "[4] U [3]"}),
+             dict(rc={1: "U", 2: "U", 3: "F", 4: "F"}, fc={901: False}, hints={501: "fourth 501", 502: "fourth 502"}, packages={"1P": "[3]", "3P": "[3]"})]
+
+    for expr in ("Muss [1] U [501]", "X [2][901] U [502]", "Muss [1] U [501] U [1P] Soll [2][901] U [502] Kann [3P]"):
+        async def one(d, yields):
+            ahb.set_cer_values(**d)       # inside the evaluation's own task: context-local
+            for _ in range(yields):
+                await asyncio.sleep(0)
+            try:
+                tree = await parse_expression_including_unresolved_subexpressions(expr, resolve_packages=True)
+                return proj_ahb(await evaluate_ahb_expression_tree(tree))
+            except BaseException as e:  # pylint:disable=broad-except
+                return ("raised", type(e).__name__, str(e)[:80])
+
+        async def alone_all():
+            return [await asyncio.ensure_future(one(d, 0)) for d in datas]
+
+        alone = asyncio.run(alone_all())
+        for trial in range(12):
+            order = list(range(len(datas)))
+            rng.shuffle(order)
+            yields = [rng.randint(0, 3) for _ in order]
+
+            async def together():
+                return await asyncio.gather(*[asyncio.ensure_future(one(datas[i], y)) for i, y in zip(order, yields)])
+
+            got = asyncio.run(together())
+            res.count("evaluations", len(order))
+            for i, g in zip(order, got):
+                if g != alone[i]:
+                    res.violation(f"{len(order)} concurrent evaluations of '{expr}' through the shipped ContentEvaluationResult based evaluators, each with its own "
+                                  f"context-local data (start order {order}, yields before the start {yields}): evaluation #{i + 1} gives {g}, alone it gives {alone[i]}",
+                                  {"kind": "shipped-concurrent"})
+                    return
+    res.coverage["shipped_concurrent_check"] = "3 expressions x 4 evaluations x 12 seeded start patterns through the shipped data-based evaluators: every result as when running alone"
+
+
 def wide_scenarios(thorough):
     return [sc_wide_rc("rc40", 40), sc_wide_validation("wide40", 40)] + ([sc_wide_rc("rc33", 33), sc_wide_validation("wide34", 34)] if thorough else [])
 
@@ -339,6 +385,7 @@ def run():
     for i, sc in enumerate(scenarios(thorough)):
         A.check_scenario(sc, res, work, rng, max_all=(3000 if thorough else 300), extra_random=(300 if thorough else 25), sensitivity=({"ahb2": [("completion_order", "copy", "Assoc")], "validfc": [("positional", "shared", "OwnContext")]}.get(sc.name)))
     injected_provider_check(res)
+    shipped_concurrent_check(res, rng)
     for sc in wide_scenarios(thorough):
         A.check_large_scenario(sc, res, rng, n=(400 if thorough else 120))
     bad = [s for s in res.coverage.get("sensitivity", []) if s["violated"] != s["expected_to_violate"]]
